@@ -27,6 +27,7 @@ def run(run, tier):
     EoN = C.import_eon()
     import EoN.simulation as sim
     props = C.check_props('C01')
+    C.extra_props(run, 'C01', props, ['C01x'])
     ok, log = C.build_driver(GL.COMP)
     if not ok:
         run.violation('C01/build', 'extracted model does not build: ' + log[-500:], {'log': log[-3000:]}, no_input=True)
